@@ -433,4 +433,49 @@ CONTRACTS = {
         ])},
         unfold=['lp', 'lpcat'], unfold_map={'ensures.': []},
     ),
+
+    # ---------------------------------------------------------------- C11: feature construction
+    'compute_expanded_multivalue_features': dict(
+        strings='opaque',
+        params={'input_dataframe': {'__class__': 'DataFrame', 'columns': 'list[str]', 'nrows': 'int', 'data': 'FrameData', 'cells': 'const:"str"'},
+                'logger': 'inert', 'pbar': 'inert',
+                'args': {'__class__': 'args', 'explode_multivalue_features': 'str', 'missing_value_symbols': 'str'}},
+        local_kinds={'new_feature_hash': 'dict[str,list[str]]', 'tmp_vec': 'list[str]'},
+        requires=[
+            ('rows', 'input_dataframe.nrows >= 1'),
+            ('distinct_columns', 'all(input_dataframe.columns[i] != input_dataframe.columns[j] for j in range(len(input_dataframe.columns)) for i in range(j))'),
+            ('exploded_features_are_columns', 'all(args.explode_multivalue_features.split(";")[k] in input_dataframe.columns '
+                                              'for k in range(len(args.explode_multivalue_features.split(";"))))'),
+        ],
+        ensures=[
+            ('original_columns_first', 'len(result.columns) >= len(old(input_dataframe).columns) and '
+                                       'all(result.columns[c] == old(input_dataframe).columns[c] for c in range(len(old(input_dataframe).columns)))'),
+            ('row_count_kept', 'result.nrows == old(input_dataframe).nrows'),
+            ('original_values_untouched', 'all(implies(not any(result.columns[m] == old(input_dataframe).columns[c] for m in range(len(old(input_dataframe).columns), len(result.columns))), '
+                                          'all(result[old(input_dataframe).columns[c]].values[i] == old(input_dataframe)[old(input_dataframe).columns[c]].values[i] for i in range(old(input_dataframe).nrows))) '
+                                          'for c in range(len(old(input_dataframe).columns)))'),
+            # every appended column is the indicator of one token of one exploded feature: "1" exactly on the rows whose delimited value contains the token
+            ('indicator_iff_row_contains_token',
+             'all(implies(not (result.columns[m] in old(input_dataframe).columns), exists(lambda f: exists(lambda t: '
+             '(f in args.explode_multivalue_features.split(";")) and result.columns[m] == "MULTIEX-" + f + "-" + t and '
+             'all(result[result.columns[m]].values[r] == ite(t in set(old(input_dataframe)[f].values[r].replace(",", "-").split("-")), "1", "") for r in range(old(input_dataframe).nrows)), '
+             '"str"), "str")) for m in range(len(old(input_dataframe).columns), len(result.columns)))'),
+        ],
+        loops={
+            1: dict(index='a', inv=[
+                ('rows', 'forall(lambda nm: implies(nm in new_feature_hash, len(new_feature_hash[nm]) == input_dataframe.nrows), "str")'),
+                ('rule', 'forall(lambda nm: implies(nm in new_feature_hash, exists(lambda f: exists(lambda t: (f in considered_multivalue_features) and nm == "MULTIEX-" + f + "-" + t and all(new_feature_hash[nm][r] == ite(t in set(input_dataframe[f].values[r].replace(",", "-").split("-")), "1", "") for r in range(input_dataframe.nrows)), "str"), "str")), "str")'),
+            ]),
+            2: dict(index='b', inv=[
+                ('removed', 'forall(lambda t: (t in unique_values) == ((t in pre(unique_values)) and not any(b_seq[i] == t for i in range(b))), "str")'),
+            ]),
+            3: dict(index='c', inv=[
+                ('rows', 'forall(lambda nm: implies(nm in new_feature_hash, len(new_feature_hash[nm]) == input_dataframe.nrows), "str")'),
+                ('rule', 'forall(lambda nm: implies(nm in new_feature_hash, exists(lambda f: exists(lambda t: (f in considered_multivalue_features) and nm == "MULTIEX-" + f + "-" + t and all(new_feature_hash[nm][r] == ite(t in set(input_dataframe[f].values[r].replace(",", "-").split("-")), "1", "") for r in range(input_dataframe.nrows)), "str"), "str")), "str")'),
+            ]),
+            4: dict(index='r', inv=[
+                ('indicator', 'len(tmp_vec) == r and all(tmp_vec[i] == ite(unique_value in multivalue_sets[i], "1", "") for i in range(r))'),
+            ]),
+        },
+    ),
 }
